@@ -7,7 +7,9 @@ CONCRETE model MovesConcrete.v (proved to refine Moves.v): the private index arr
 rowLastCell_/cellPred_/cellNext_/cellRow_/cellX_/cellY_/cellOrientation_ compared after every operation
 (tag DC); (b) harness/dopt.cpp: every optimiser
 pass of DetailedPlacer driven directly with arbitrary window arguments, the placement it holds checked
-with the proved checker legalb; (c) Circuit::placeDetailed with a recording callback: legalb at every
+with the proved checker legalb; for every call of runShiftsOnCells (hook coloquinte_verif_shift_hook) the network the
+C++ built is compared with ShiftLp.shift_net, lemon's potentials are checked dual feasible by the extracted proved
+checker (c02_shift_dual_feasible_legal) and the positions written are compared with potential - potential(fixed); (c) Circuit::placeDetailed with a recording callback: legalb at every
 Detailed callback and on return, cells it does not optimise stay where legalization put them, it never
 fails on a circuit legalization accepts; (d) harness/dinit.cpp (tag FC): DetailedPlacement::fromIspdCircuit on
 generated circuits as they are, after Circuit::legalize, perturbed, and on degenerate ones (no rows, no cells,
@@ -75,6 +77,9 @@ def run(ctx):
     cres = dc.run_detailed(ctx, 1200 if ctx.quick else 30000, seed=s + 20, prop="C02")
     for key in ("legal_fail", "shift_fail", "check_fail", "throw_fail", "crash"):
         ofail += [(l, w, "DetailedPlacer driven directly: " + why) for l, w, why in dres[key][:2]]
+    lp = dres["lp"]
+    ofail += [(l, rec[:3000], "DetailedPlacer::runShiftsOnCells driven directly: the positions written violate the ordering/boundary constraints "
+               "(proved guard shift_ok = false): " + why) for l, rec, why in lp["shift_ok_fail"][:2]]
     for key in ("legal_fail", "fixed_fail", "throw_fail", "crash"):
         ofail += [(x[0], x[1], "Circuit::placeDetailed: " + x[2]) for x in cres[key][:2]]
     for l, i, why in ofail[:3]:
@@ -96,11 +101,22 @@ def run(ctx):
                           % (len(fc_mism), len(fc_lines)),
                           {"broken": "correspondence of coq/DetailedInit.v (theorem c02_from_circuit_accepts_legal)",
                            "first_difference": {"case": fc_mism[0][0], "implementation": fc_mism[0][1], "model": fc_mism[0][2]}}, found_input=False)
+        for key, what, thm in (("net_diff", "the min-cost-flow network built by DetailedPlacer::runShiftsOnCells differs from the model ShiftLp.shift_net on the same state",
+                                "correspondence of coq/ShiftLp.v shift_net / pos_arcs (theorems c02_shift_constraints_are_dual_feasibility, c02_shift_dual_feasible_legal)"),
+                               ("dual_infeasible", "lemon's potentials for a shift pass are not dual feasible for the model's network",
+                                "hypothesis `dual_feasible = true` of c02_shift_dual_feasible_legal"),
+                               ("pos_diff", "the positions written by runShiftsOnCells are not potential(cell) - potential(fixed)",
+                                "correspondence of coq/ShiftLp.v positions_of (theorem c02_shift_dual_feasible_legal)"),
+                               ("driver_fail", "a shift-pass record could not be evaluated by the model driver", "shift-LP correspondence (harness/dopt.cpp hook record <-> ocaml/driver_shift.ml)")):
+            if lp[key]:
+                ctx.violation(what + " (%d of %d calls); no illegal exposed state found" % (len(lp[key]), lp["records"]),
+                              {"broken": thm, "first_difference": {"case": lp[key][0][0], "record": lp[key][0][1][:3000], "detail": lp[key][0][2]}}, found_input=False)
         if not proof_ok:
             ctx.violation("proof obligations of Properties_C02.v do not check", {"broken": "Properties_C02.v", "detail": proof}, found_input=False)
     cov = dict(proof)
     cov.update({"trusted_base": common.TRUSTED_BASE + ["the five index arrays of DetailedPlacement: modelled (MovesConcrete.v), proved to refine the per-row lists, and compared array by array (tag DC); the lists are compared through rowCells()",
-                                                        "lemon NetworkSimplex (shift pass) is not modelled: legality after shifts is validated per pass"],
+                                                        "lemon NetworkSimplex (shift pass) is not modelled: legality after a shift pass follows (proved) from dual feasibility of its potentials, which is re-checked per call "
+                                                        "(needs the hook coloquinte_verif_shift_hook in /repo), and the positions written are re-checked with the proved guard shift_ok"],
                 "evaluations": len(lines) + dres["runs"] + cres["runs"] + len(fc_lines),
                 "distinct_nontrivial": len(nontriv) + dres["nontrivial"] + cres["moved_runs"],
                 "rule": "DM: 1-4 row segments (several per y), 1-7 cells with all polarities, 1-10 random ops (swap, insert, unplace, place at arbitrary x) + "
@@ -111,12 +127,15 @@ def run(ctx):
                 "direct_drive": do.summary(dres), "placeDetailed_runs": dc.summary(cres),
                 "exposed_states_checked_legal": cres["states"] + dres["ops"],
                 "shift_passes_checked_against_proved_guard": dres["shifts_checked"],
+                "shift_lp_certificates": do.lp_summary(lp),
                 "samples": [lines[0], exh[len(exh) // 2], cres["lines"][0][:500]],
                 "concrete_array_sequences": len(dc_lines), "concrete_array_ops_performed": dc_ops,
                 "concrete_array_differences": len(dc_mism),
                 "from_circuit_cases": len(fc_lines), "from_circuit_outcomes": fc_kinds, "from_circuit_differences": len(fc_mism),
-                "model_vs_impl_differences": len(mism) + len(dc_mism) + len(fc_mism), "impl_outputs_violating_statement": len(ofail)})
-    return ctx.finish(LEVEL, cov, ["legality after the shift pass is validated, not proved",
+                "model_vs_impl_differences": len(mism) + len(dc_mism) + len(fc_mism) + len(lp["net_diff"]) + len(lp["dual_infeasible"]) + len(lp["pos_diff"]), "impl_outputs_violating_statement": len(ofail)})
+    return ctx.finish(LEVEL, cov, ["legality after the shift pass: proved from dual feasibility of the solver's potentials, which is checked per call (%d calls this run) together with the guard shift_ok on the positions written"
+                                   % lp["records"] if lp["records"] else
+                                   "legality after the shift pass is validated with the proved guard shift_ok only: /repo does not carry the hook coloquinte_verif_shift_hook, dual feasibility of the solver's potentials was not checked",
                                    "model tied to the code by exact comparison on the cases of this run"])
 
 
